@@ -247,20 +247,20 @@ type closureCfg struct {
 func closureConfigs(quick bool) []tr.Config {
 	if quick {
 		return []tr.Config{
-			{Ctor: "less", Order: "nat", U: 9},
-			{Ctor: "cmp", Order: "rev", U: 9},
-			{Ctor: "cmp", Order: "coarse", U: 17},
-			{Set: true, Ctor: "less", Order: "coarse", U: 17},
-			{Set: true, Ctor: "cmp", Order: "nat", U: 9},
+			{Ctor: "less", Order: "nat", U: 12},
+			{Ctor: "cmp", Order: "rev", U: 12},
+			{Ctor: "cmp", Order: "coarse", U: 23},
+			{Set: true, Ctor: "less", Order: "coarse", U: 23},
+			{Set: true, Ctor: "cmp", Order: "nat", U: 12},
 		}
 	}
 	var out []tr.Config
 	for _, set := range []bool{false, true} {
 		for _, ctor := range []string{"less", "cmp"} {
 			for _, order := range []string{"nat", "rev", "coarse"} {
-				u := 11
+				u := 14
 				if order == "coarse" {
-					u = 21
+					u = 27
 				}
 				out = append(out, tr.Config{Set: set, Ctor: ctor, Order: order, U: u})
 			}
@@ -445,6 +445,20 @@ func makeSeeds(cfg tr.Config, quick bool, prop string) []seed {
 	if !quick {
 		sizes = []int{15, 16, 17, 31, 32, 33, 127, 128, 129, 135, 136, 137, 143, 144, 255, 256, 257, 300}
 	}
+	drained := []int{24, 129, 137, 145, 257}
+	if quick && prop == "C01" {
+		drained = []int{24, 137}
+	}
+	if fanout != 16 {
+		// scaled fan-outs: these sizes give trees of height 4 to 6, deeper than the shipped
+		// fan-out reaches with a thousand keys
+		sizes = []int{15, 16, 17, 31, 33, 64, 65}
+		drained = []int{17, 33}
+		if !quick {
+			sizes = []int{7, 8, 15, 16, 17, 31, 32, 33, 63, 64, 65, 127, 129}
+			drained = []int{17, 33, 65}
+		}
+	}
 	var out []seed
 	for _, n := range sizes {
 		out = append(out, seed{fmt.Sprintf("asc%d", n), fillAsc(n)})
@@ -452,10 +466,6 @@ func makeSeeds(cfg tr.Config, quick bool, prop string) []seed {
 		if n%2 == 0 || !quick {
 			out = append(out, seed{fmt.Sprintf("saw%d", n), fillSaw(n)})
 		}
-	}
-	drained := []int{24, 129, 137, 145, 257}
-	if quick && prop == "C01" {
-		drained = []int{24, 137}
 	}
 	for _, n := range drained {
 		out = append(out, seed{fmt.Sprintf("asc%d+leaves-minimal", n), drainLeaves(cfg, fillAsc(n))})
@@ -663,7 +673,11 @@ func runSeeded(run *vx.Run, prop string, depth int) {
 	}
 	run.Set("seeded_search", table)
 	if prop == "C03" {
-		run.Set("structural_events", ev.m)
+		if fanout == 16 {
+			run.Set("structural_events", ev.m)
+		} else {
+			run.Set("structural_events_deep_trees", ev.m)
+		}
 	}
 }
 
@@ -889,7 +903,7 @@ func (s productSys) Run(path []seqx.Op) (res seqx.Result) {
 
 func c02Specs(u int, quick bool) []tr.IterSpec {
 	specs := []tr.IterSpec{{Iterate: true}, {Reverse: true}}
-	lo, hi := 2, u-1
+	lo, hi := 1, u-2
 	for _, rev := range []bool{false, true} {
 		for lk := tr.Unb; lk <= tr.Exc; lk++ {
 			for hk := tr.Unb; hk <= tr.Exc; hk++ {
@@ -927,7 +941,9 @@ func runProduct(run *vx.Run) {
 	pcs = append(pcs,
 		pc{tr.Config{Ctor: "cmp", Order: "nat", U: uMain}, []tr.IterSpec{{Iterate: true}, {Reverse: true}}, 1},
 		pc{tr.Config{Ctor: "less", Order: "nat", U: uBounded}, all[2:], 1},
-		pc{tr.Config{Set: true, Ctor: "cmp", Order: "nat", U: uBounded}, []tr.IterSpec{{Iterate: true}, {Reverse: true, LoKind: tr.Inc, Lo: 2, HiKind: tr.Exc, Hi: uBounded}}, 1},
+		// reversed order: the zero-valued key is the LARGEST, so it lives in right-hand nodes
+		pc{tr.Config{Ctor: "less", Order: "rev", U: uMain - 1}, []tr.IterSpec{{Iterate: true}, {Reverse: true}}, 1},
+		pc{tr.Config{Set: true, Ctor: "cmp", Order: "nat", U: uBounded}, []tr.IterSpec{{Iterate: true}, {Reverse: true, LoKind: tr.Inc, Lo: 1, HiKind: tr.Exc, Hi: uBounded - 1}}, 1},
 		pc{tr.Config{Ctor: "cmp", Order: "coarse", U: uBounded + 2}, []tr.IterSpec{{Iterate: true}, {Reverse: true, LoKind: tr.Exc, Lo: 3, HiKind: tr.Inc, Hi: uBounded}}, 1},
 	)
 	if !run.Quick() {
@@ -935,8 +951,9 @@ func runProduct(run *vx.Run) {
 	}
 	var table []map[string]any
 	for _, c := range pcs {
+		// the product universe includes key 0, the key type's zero value (vacated slots hold it)
 		var keys []int
-		for k := 1; k <= c.cfg.U; k++ {
+		for k := 0; k < c.cfg.U; k++ {
 			keys = append(keys, k)
 		}
 		s := productSys{cfg: c.cfg, keys: keys, specs: c.specs, maxIters: c.maxIters}
@@ -973,6 +990,12 @@ func runProductSeeded(run *vx.Run) {
 	sizes := []string{"asc17", "asc129", "desc137", "asc129+leaves-minimal", "asc137+leaves-minimal", "desc257+leaves-minimal", "saw256"}
 	if run.Quick() {
 		sizes = []string{"asc17", "asc129+leaves-minimal", "desc137", "asc145+leaves-minimal"}
+	}
+	if fanout != 16 {
+		sizes = []string{"asc17", "desc33", "asc33+leaves-minimal", "saw64"}
+		if run.Quick() {
+			sizes = []string{"asc33+leaves-minimal"}
+		}
 	}
 	all := makeSeeds(cfg, false, "C02")
 	var cases int64
@@ -1116,6 +1139,7 @@ func main() {
 			runSeeded(run, prop, d)
 		} else {
 			runClosure(run, prop)
+			runSeeded(run, prop, 2) // deep trees (height 4-6) at the scaled fan-out
 		}
 		run.Set("rule", "closure: state = full node-structure dump of the real tree (values relabelled); every Put/Delete over the key universe in every state, alternating between two copies of the Map/Set value; full observation (Len, First, Last, Get/Contains of every key and two outside, Iterate, Range/RangeReverse for all 9 bound-kind pairs x all bound positions) and the write-footprint invariant on every state. fan-out 16: all operation sequences up to the depth over the structural focus alphabet from every seed tree")
 	case "C03":
@@ -1127,6 +1151,7 @@ func main() {
 			runSeeded(run, prop, d)
 		} else {
 			runClosure(run, prop)
+			runSeeded(run, prop, 2)
 		}
 		run.Set("rule", "same transitions as C01; after every single operation: occupancy, balance, ordering, parent links, size, zeroed vacated slots, depth bound and comparator-call bound for lookups of every probe key")
 	case "C02":
@@ -1134,6 +1159,7 @@ func main() {
 			runProductSeeded(run)
 		} else {
 			runProduct(run)
+			runProductSeeded(run) // iterators parked in deep trees (height 4-6)
 		}
 		run.Set("rule", "state = tree dump x private cursor state of each live iterator x oracle monitor state; alphabet = Put/Delete of every key, iterator creation (at every reachable tree state), Next; per-Next oracle: no panic/spin, monotone, in bounds, present, current value, sticky exhaustion, no-skip rule")
 	default:
